@@ -134,9 +134,13 @@ class Prop:
     exhaustive = {'quick': False, 'thorough': False}
     trusted_base = ['PeerCodec.extended_nexthop is a private field and is not observed (modelled, not tied to the code)',
                     'admission: the iteration order of Global.peer_group is reported by the harness and given to the model as an input (theorems hold for every order); '
-                    'capability lists are compared modulo the iteration order of the families hash map; enable/disable is the admin_down flag written directly '
-                    '(disable_peer/enable_peer/delete_peer of grpc.rs are not driven); GTSM min-TTL, MD5, BFD registration, export-policy resolution and '
-                    'active connects are not modelled; PeerSession::run is driven only to its end-of-connection bookkeeping (client closes the socket)']
+                    'capability lists are compared modulo the iteration order of the families hash map; the admin flag is also written directly (op admin) next to the '
+                    'gRPC methods disable_peer / enable_peer / delete_peer / update_peer / reset_peer (hard), which are driven; GTSM min-TTL, MD5, BFD registration, '
+                    'export-policy resolution and active connects are not modelled; PeerSession::run is driven to the OPEN it sends and to its end-of-connection bookkeeping '
+                    '(the harness peer never answers the OPEN)',
+                    'oracle-only observations (not produced by the model, stripped before the comparison): the OPEN read from the wire on every admitted connection, '
+                    'the PeerFsm state of both directions and the capability list held by the PeerFsm of every neighbour; a hard ResetPeer is the model operation '
+                    '"the connection ends" (the API is called when it is the neighbour\'s only connection, otherwise the client closes that connection)']
     assumptions = ['capability lists are what the OPEN parser hands to the FSM (any order, duplicates allowed)',
                    'prefix masks above the address width are outside the property (FromStr rejects them); contains panics there']
 
